@@ -1,25 +1,23 @@
 package main
 
-// C06 — runner for the operation under test when it uses flags or chart features the engine
-// model does not have (crds/, CreateNamespace, post-renderer, notes, subchart, Force,
-// HideSecret, ...).  Same construction as harness/internal/eng: the REAL action structs over the
-// REAL kube.Client in front of the simulated API server and a counting wrapper around the real
-// storage driver of the history.  These cases are checked by the runtime oracle only.
+// C06 — runner for the operation under test when it uses flags or chart features the shared
+// engine model does not have (crds/, CreateNamespace, post-renderer, notes, subchart, Force,
+// HideSecret, lookups, discovery ...).  Same construction as harness/internal/eng: the REAL action
+// structs over the REAL kube.Client in front of the simulated API server and the real storage
+// driver of the history, inside the recording environment of c06_rich.go.  These cases are
+// checked by the runtime oracle and, when inside the richer model, by Run/RunC06Rich.v.
 
 import (
 	"bytes"
 	"encoding/json"
-	"errors"
 	"fmt"
 	"sort"
 	"strings"
-	"sync"
 	"time"
 
 	"k8s.io/apimachinery/pkg/api/meta"
 	"k8s.io/apimachinery/pkg/runtime/schema"
 	"k8s.io/cli-runtime/pkg/resource"
-	restfake "k8s.io/client-go/rest/fake"
 	"k8s.io/client-go/restmapper"
 	cmdtesting "k8s.io/kubectl/pkg/cmd/testing"
 
@@ -30,7 +28,6 @@ import (
 	"helm.sh/helm/v4/pkg/storage/driver"
 
 	"verif/harness/internal/eng"
-	"verif/harness/internal/sim"
 )
 
 // c06Wide: what lies outside eng.Flags / eng.BuildChart.
@@ -62,13 +59,7 @@ type c06Wide struct {
 	CRDExists bool `json:"crd_exists,omitempty"` // the CustomResourceDefinition of crds/ is already in the cluster
 }
 
-// ---- counting storage wrapper (reads hand out copies, so nothing can alias the store) ----
-
-type c06Drv struct {
-	inner  driver.Driver
-	mu     sync.Mutex
-	writes int
-}
+// ---- release copies (reads of the recording driver hand out copies, so nothing can alias the store) ----
 
 func c06Clone(r *rspb.Release) *rspb.Release {
 	if r == nil {
@@ -98,30 +89,6 @@ func c06Clones(rs []*rspb.Release) []*rspb.Release {
 	return o
 }
 
-func (d *c06Drv) w()           { d.mu.Lock(); d.writes++; d.mu.Unlock() }
-func (d *c06Drv) Name() string { return d.inner.Name() }
-func (d *c06Drv) Get(k string) (*rspb.Release, error) {
-	r, err := d.inner.Get(k)
-	return c06Clone(r), err
-}
-func (d *c06Drv) List(f func(*rspb.Release) bool) ([]*rspb.Release, error) {
-	rs, err := d.inner.List(f)
-	return c06Clones(rs), err
-}
-func (d *c06Drv) Query(l map[string]string) ([]*rspb.Release, error) {
-	rs, err := d.inner.Query(l)
-	return c06Clones(rs), err
-}
-func (d *c06Drv) Create(k string, r *rspb.Release) error {
-	d.w()
-	return d.inner.Create(k, c06Clone(r))
-}
-func (d *c06Drv) Update(k string, r *rspb.Release) error {
-	d.w()
-	return d.inner.Update(k, c06Clone(r))
-}
-func (d *c06Drv) Delete(k string) (*rspb.Release, error) { d.w(); return d.inner.Delete(k) }
-
 // ---- factory: the kubectl test factory of sim.Client(), whose REST mapper ALSO knows the kind
 // CustomResourceDefinition.  Without that, kube.Client.Build of a crds/ file fails with
 // "no matches for kind" before any request is sent, and a CRD installation attempted during a
@@ -146,39 +113,6 @@ func (f *c06Factory) NewBuilder() *resource.Builder {
 		func() (restmapper.CategoryExpander, error) { return resource.FakeCategoryExpander, nil },
 	)
 }
-
-func c06Client(s *sim.Server) *kube.Client {
-	tf := cmdtesting.NewTestFactory().WithNamespace("default")
-	tf.UnstructuredClient = &restfake.RESTClient{
-		NegotiatedSerializer: resource.UnstructuredPlusDefaultContentConfig().NegotiatedSerializer,
-		Client:               restfake.CreateHTTPClient(s.RoundTrip),
-	}
-	return &kube.Client{Factory: &c06Factory{tf}}
-}
-
-// ---- kube client: the real one; only reachability and waiting are stubbed ----
-
-type c06Kube struct{ *kube.Client }
-
-func (c *c06Kube) IsReachable() error { return nil }
-
-// GetWaiter answers like the real kube.Client.GetWaiter: only the three known strategies get
-// the stub waiter; anything else - in particular the empty strategy of an action that forgot to
-// set one - is "unknown wait strategy".
-func (c *c06Kube) GetWaiter(ws kube.WaitStrategy) (kube.Waiter, error) {
-	switch ws {
-	case kube.StatusWatcherStrategy, kube.LegacyStrategy, kube.HookOnlyStrategy:
-		return c06Waiter{}, nil
-	}
-	return nil, errors.New("unknown wait strategy")
-}
-
-type c06Waiter struct{}
-
-func (c06Waiter) Wait(kube.ResourceList, time.Duration) error            { return nil }
-func (c06Waiter) WaitWithJobs(kube.ResourceList, time.Duration) error    { return nil }
-func (c06Waiter) WaitForDelete(kube.ResourceList, time.Duration) error   { return nil }
-func (c06Waiter) WatchUntilReady(kube.ResourceList, time.Duration) error { return nil }
 
 // ---- post-renderer ----
 
